@@ -12,7 +12,7 @@ for d in sorted(glob.glob("/verif/seeded/*")):
     np_ = os.path.join(d, "notes.md")
     if os.path.exists(np_):
         title = open(np_).read().split("\n")[0].lstrip("# ").strip()
-        title = re.sub(r"^C\d\d[ _/]*(seeded )?(change )?\d?\s*[-—–:]*\s*", "", title).strip(" -—–")
+        title = re.sub(r"^C\d\d[ _/]*(seeded )?(change )?\d*\s*[-—–:]*\s*", "", title).strip(" -—–")
     how = []
     for p, c in m.get("checks", {}).items():
         for v in c.get("verdict", []):
